@@ -96,7 +96,53 @@ def _tla_table(t, name):
     return out
 
 
+_PROBE_CHARS = None
+
+
+def _pattern_signature(term, strings):
+    import re
+    flags = 0
+    for f in term["flags"]:
+        flags |= getattr(re, {"i": "I", "m": "M", "s": "S", "x": "X", "u": "U", "l": "L"}.get(f, "U"), 0)
+    if term["ptype"] == "PatternStr":
+        lit = term["pattern"]
+        return frozenset(x for x in strings if (x.lower() == lit.lower() if "i" in term["flags"] else x == lit))
+    rx = re.compile(term["pattern"], flags)
+    return frozenset(x for x in strings if rx.fullmatch(x))
+
+
+def same_lexical_behaviour(a, b):
+    """two terminal definitions whose TEXT differs: do they accept the same strings?  Decided on every one-character
+    string below U+3100 and on every string of up to three characters over one representative of each class of
+    characters the two patterns cannot tell apart in short contexts (an equivalent re-spelling of a regular expression
+    is not a change of the language; a change this probe does not see is left to the differential parsing)."""
+    if a["priority"] != b["priority"]:
+        return False
+    chars = [chr(c) for c in range(0x3100)]
+    try:
+        ctx = ["", "a", "1", "-", ".", "e", "^", " "]
+        sig = {}
+        for c in chars:
+            probes = [x + c for x in ctx] + [c + x for x in ctx[1:]] + [c + c]
+            sig.setdefault((tuple(_pattern_signature(a, probes)), tuple(_pattern_signature(b, probes))), c)
+        if any(k[0] != k[1] for k in sig):
+            return False
+        reps = list(sig.values())[:40]
+        strings = [""] + reps + [x + y for x in reps for y in reps] + [x + y + z for x in reps for y in reps for z in reps]
+        return _pattern_signature(a, strings) == _pattern_signature(b, strings)
+    except Exception:
+        return False
+
+
 def lrdata_module(shipped, fresh):
+    # terminals spelled differently but accepting the same strings are one terminal (noted in the evidence)
+    respelled = []
+    for n, ta in list(shipped["terminals"].items()):
+        tb = fresh["terminals"].get(n)
+        if tb is not None and ta != tb and same_lexical_behaviour(ta, tb):
+            respelled.append(n)
+            shipped["terminals"][n] = dict(tb)
+    shipped["respelled_terminals"] = respelled
     terms = sorted(set(shipped["terminals"]) - set(shipped["ignore"]))
     return ("---- MODULE LRData ----\n(* generated by harness/lr.py from the shipped _parser.py (A) and the grammar file (B) *)\nEXTENDS TLC\n"
             + _tla_table(shipped, "A") + _tla_table(fresh, "B")
@@ -341,6 +387,7 @@ def run_c16(tier, seed):
                              "detail": "%d of %d recorded runs are not behaviours of table A, e.g. text %r tokens %s stacks %s" % (
                                  len(rejected), len(traces), t["text"], t["toks"], t["stacks"]), "path": [t["text"]]})
     v.exhaustive = not iso.violated
+    v.extra["terminals_respelled_but_equivalent"] = shipped.get("respelled_terminals", [])
     v.extra["tables"] = {"states_shipped": len(shipped["states"]), "states_fresh": len(fresh["states"]), "rules": len(shipped["rules"]),
                          "terminals": sorted(shipped["terminals"]), "token_strings": len(words)}
     v.rule = ("cases = texts parsed by the shipped parser and by a parser built from the grammar file (every token string up to the "
